@@ -129,3 +129,5 @@ def run(ctx):
     clamp(ctx, crate)
     ctx.not_decided("containment of the position in the returned cell; i, j < nside (float rounding of sin/cos/products); behaviour 1-2 ulp around cell borders")
     ctx.assume("C18 (checked separately): ZOrderCurve::ij2h is the bit interleave")
+    from rules import controls
+    controls.guard_controls(ctx)
